@@ -322,8 +322,12 @@ class ParallelWorkManager(contextlib.AbstractContextManager):
         # FIXME there's currently some thing weird happening at the end of
         # Encode 1D for 1kg-p3. The progress bar disappears, like we're
         # setting a total of zero or something.
-        self.progress_thread.join()
-        self._update_progress()
+        if exc_type is None:
+            self.progress_thread.join()
+            self._update_progress()
+        # On an error we must not wait for the (daemon) progress thread or read
+        # the counter: a worker that died while updating the progress counter
+        # still holds its lock, and we would block forever.
         self.progress_bar.close()
         return False
 
